@@ -160,7 +160,7 @@ func (w *World) setupCallbacks() {
 				if ci == CmpBytes && w.c.Cfg.RandSeed%2 == 0 {
 					return nil // documented: nil means the default, bytes.Compare
 				}
-				return CmpFunc(ci)
+				return AppCmp(ci)
 			}
 			return nil
 		}
